@@ -15,10 +15,16 @@ import subprocess
 import sys
 
 VERIF = os.path.dirname(os.path.dirname(os.path.abspath(__file__)))
-WT = "/tmp/seed/matrix-wt"
+SLOT = os.environ.get("SEED_SLOT", "")
+WT = "/tmp/seed/matrix-wt" + SLOT
+OUT = "/tmp/seed/out" + SLOT
 OBSOLETE = {"C15-2": "the mechanism the change relied on (window arithmetic in "
                      "oscore_validate_sender_seq) was rewritten by fix 5e8c839; the patch no "
-                     "longer applies and has no counterpart in the repaired code"}
+                     "longer applies and has no counterpart in the repaired code",
+            "C14-2": "the change removed slack from coap_oscore_overhead() that the encoder relied on; "
+                     "fix 9f8e99c made the estimate count the option bytes exactly and add its own "
+                     "margin, so with the change applied to the repaired tree every message is still "
+                     "protected correctly: the demonstration passes, it is no longer a break"}
 
 
 def sh(cmd, **kw):
@@ -70,7 +76,7 @@ def main():
         meta["confirmed"] = c.stdout.strip().splitlines()[-1] if c.stdout.strip() else "?"
         meta["confirm_ok"] = c.returncode == 0
         sh("git -C %s apply %s" % (WT, patch))
-        env = dict(os.environ, VERIF_REPO=WT, VERIF_OUT="/tmp/seed/out")
+        env = dict(os.environ, VERIF_REPO=WT, VERIF_OUT=OUT)
         caught, ran = None, []
         for tier in ("quick", "thorough"):
             r = subprocess.run([os.path.join(VERIF, "check"), prop, "--tier", tier], env=env,
@@ -97,9 +103,9 @@ def main():
         json.dump(meta, open(os.path.join(d, "meta.json"), "w"), indent=1)
         rows.append((sid, meta["result"], meta.get("caught_by", "")[:120]))
         print(rows[-1], meta.get("confirmed"), flush=True)
-    shutil.rmtree("/tmp/seed/out", ignore_errors=True)
+    shutil.rmtree(OUT, ignore_errors=True)
     sh("git -C /repo worktree remove --force %s" % WT)
-    sh("git -C /repo worktree remove --force /tmp/seed/confirm-wt")
+    sh("git -C /repo worktree remove --force /tmp/seed/confirm-wt" + SLOT)
     sh("git -C /repo worktree prune")
     import hashlib
     bdir = "/var/tmp/verif-build-%s" % hashlib.sha1(WT.encode()).hexdigest()[:10]
